@@ -107,6 +107,28 @@ def _dict_carriers(f, opt, derived):
 def _candidates(ctx, f, c):
     p = ctx.prog
     if isinstance(c.func, ast.Name):
+        # a local bound to one of several functions: g = {1: f1, 2: f2}[k] / g = f1 if c else f2 / g = f1
+        local = []
+        for a in ast.walk(f.node):
+            if isinstance(a, ast.Assign) and len(a.targets) == 1 and isinstance(a.targets[0], ast.Name) and a.targets[0].id == c.func.id:
+                v = a.value
+                if isinstance(v, ast.Subscript) and isinstance(v.value, ast.Dict):
+                    elts = list(v.value.values)
+                elif isinstance(v, ast.IfExp):
+                    elts = [v.body, v.orelse]
+                elif isinstance(v, ast.Name):
+                    elts = [v]
+                else:
+                    return []  # rebound to something opaque
+                for e in elts:
+                    t = p.lookup(f.module, e.id) if isinstance(e, ast.Name) else None
+                    if not isinstance(t, FuncInfo):
+                        return []
+                    local.append(t)
+        if local:
+            return local
+        if c.func.id in f.params:
+            return []
         r = p.lookup(f.module, c.func.id)
         return [r] if isinstance(r, FuncInfo) else []
     if isinstance(c.func, ast.Attribute):
